@@ -74,6 +74,122 @@ def _flag_sites(repo, fi, pname, depth):
     return out
 
 
+def a4_branch(ctx, ld):
+    """Curated / uncurated branch of _load_data (or of the helper extracted from it), decided path by path: the two conditions of the statement are replaced by
+    atoms SAME (`np.all(spike_clusters == spike_templates)` and its spellings) and DENSE (`sparse_templates.cols is None`), the statements that set the four
+    attributes are walked with the path-sensitive interpreter, and on every path the stores are compared with what the facts of that path demand:
+    SAME false and DENSE true -> merge map, then cluster waveforms, n_clusters = max(spike_clusters) + 1; SAME true or DENSE false -> the template tables."""
+    import copy as _copy
+    from vlib import proto
+    from vlib.proto import T, C, is_t, is_c, show, subterms
+    repo = ctx.repo
+    ATTRS = ('sparse_clusters', 'n_clusters', 'merge_map', 'nan_idx')
+
+    def stores_attr(n):
+        return any(isinstance(x, ast.Attribute) and x.attr in ATTRS and isinstance(x.ctx, ast.Store) for x in ast.walk(n))
+    homes = [f_ for f_ in repo.transparent_closure(ld) if any(stores_attr(st_) for st_ in f_.body())]
+    if len(homes) != 1:
+        return ctx.undecided('C08.A4', ld, 'the statements setting sparse_clusters / n_clusters / merge_map / nan_idx were not found in one function')
+    F = homes[0]
+    body = F.body()
+    keep = [k_ for k_, st_ in enumerate(body) if stores_attr(st_)]
+    need = {n.id for k_ in keep for n in ast.walk(body[k_]) if isinstance(n, ast.Name) and isinstance(n.ctx, ast.Load)}
+    for k_ in range(max(keep), -1, -1):
+        st_ = body[k_]
+        if k_ not in keep and isinstance(st_, ast.Assign) and any(isinstance(t_, ast.Name) and t_.id in need for t_ in st_.targets):
+            keep.append(k_)
+            need |= {n.id for n in ast.walk(st_.value) if isinstance(n, ast.Name)}
+    stmts = [_copy.deepcopy(body[k_]) for k_ in sorted(keep)]
+    SAMES = ['np.all(self.spike_clusters == self.spike_templates)', 'np.array_equal(self.spike_clusters, self.spike_templates)', '(self.spike_clusters == self.spike_templates).all()',
+             'np.array_equal(self.spike_templates, self.spike_clusters)']
+    DIFFS = ['np.any(self.spike_clusters != self.spike_templates)', '(self.spike_clusters != self.spike_templates).any()']
+
+    class Atoms(ast.NodeTransformer):
+        def visit(self, n):
+            if isinstance(n, ast.expr):
+                if Pat().any(SAMES, n):
+                    return ast.copy_location(ast.Name(id='SAME__', ctx=ast.Load()), n)
+                if Pat().any(DIFFS, n):
+                    return ast.copy_location(ast.UnaryOp(op=ast.Not(), operand=ast.Name(id='SAME__', ctx=ast.Load())), n)
+                if Pat().m('self.sparse_templates.cols is None', n):
+                    return ast.copy_location(ast.Name(id='DENSE__', ctx=ast.Load()), n)
+                if Pat().m('self.sparse_templates.cols is not None', n):
+                    return ast.copy_location(ast.UnaryOp(op=ast.Not(), operand=ast.Name(id='DENSE__', ctx=ast.Load())), n)
+            return self.generic_visit(n)
+    stmts = [ast.fix_missing_locations(Atoms().visit(st_)) for st_ in stmts]
+    SAME, DENSE, me = T('SAME'), T('DENSE'), T('self')
+    I = proto.Interp(repo, unroll=1, inline_depth=0)
+    I.fi_stack = [F]
+    I._pending = []
+    outs = I.block(stmts, proto.State({F.params[0]: me, 'SAME__': SAME, 'DENSE__': DENSE}))
+    ctx.analysed['paths'] += len(outs)
+
+    def kind_of(heap):
+        sc, nc, mm, ni = (heap.get((me, a_)) for a_ in ATTRS)
+        def is_call(t, suffix):
+            return is_t(t) and t[1] == 'call' and isinstance(t[2], str) and t[2].endswith(suffix)
+        def max_plus_one(t, attr):
+            return is_t(t) and t[1] == 'Add' and C(1) in t[2:] and any(is_t(x) and x[1] == 'call' and (x[2].endswith('.max') or x[2] in ('np.max', 'np.amax')) and
+                                                                      any(y == T('attr', me, attr) for y in subterms(x)) for x in t[2:])
+        cur = [is_call(sc, 'cluster_waveforms'), max_plus_one(nc, 'spike_clusters'),
+               is_t(mm) and any(is_call(x, 'get_merge_map') for x in subterms(mm)), is_t(ni) and any(is_call(x, 'get_merge_map') for x in subterms(ni))]
+        unc = [sc == T('attr', me, 'sparse_templates'), max_plus_one(nc, 'spike_templates') or nc == T('attr', me, 'n_templates'),
+               is_t(mm) and mm[1] == 'dict' and len([x for x in mm[2:] if x != T('dict')]) <= 1 and '{}' in show(mm), (is_t(ni) and ni[1] == 'list' and len(ni) == 2) or
+               (is_t(ni) and ni[1] == 'call' and ni[2] in ('np.array', 'np.asarray', 'np.zeros', 'np.empty'))]
+        return cur, unc, (sc, nc, mm, ni)
+    names = ('cluster waveforms', 'number of clusters', 'merge map', 'empty ids')
+    problems, unknown, n_ok = [], [], 0
+    for kind, val, st in outs:
+        if kind not in ('fall', 'return'):
+            continue
+        same, dense = st.facts.get(('truth', SAME)), st.facts.get(('truth', DENSE))
+        cur, unc, vals = kind_of(st.heap)
+        if all(v is None for v in vals):
+            continue
+        facts = 'assignments %s, templates %s' % ({True: 'identical', False: 'different', None: 'not compared'}[same], {True: 'dense', False: 'sparse', None: 'not tested'}[dense])
+        if same is False and dense is True:
+            want, got = 'curated', cur
+        elif same is True or dense is False:
+            want, got = 'uncurated', unc
+        else:
+            # the path decided without one of the two facts: whatever it stores is wrong for one completion
+            if all(cur) or all(unc):
+                problems.append('the %s tables are set on a path that does not establish both conditions (%s): moving spikes between existing clusters, or sparse templates, '
+                                'are not told apart' % ('curated' if all(cur) else 'template', facts))
+            else:
+                unknown.append('path with %s: stores not recognised' % facts)
+            continue
+        if all(got):
+            n_ok += 1
+            if want == 'curated':
+                calls = [(e_[1], k_) for k_, e_ in enumerate(st.trace) if e_[0] == 'store']
+                mm_t, sc_t = st.heap.get((me, 'merge_map')), st.heap.get((me, 'sparse_clusters'))
+                n_mm = [x[3][1] for x in subterms(mm_t) if is_t(x) and x[1] == 'call' and x[2].endswith('get_merge_map') and is_c(x[3])]
+                n_sc = [x[3][1] for x in subterms(sc_t) if is_t(x) and x[1] == 'call' and x[2].endswith('cluster_waveforms') and is_c(x[3])]
+                if n_mm and n_sc and min(n_sc) < min(n_mm):
+                    problems.append('cluster_waveforms runs before the merge map exists')
+        else:
+            other = unc if want == 'curated' else cur
+            wrong = [names[k_] for k_ in range(4) if not got[k_]]
+            blank = want == 'uncurated' and not got[0] and any(is_t(x) and x[1] == 'call' and x[2] in ('np.zeros_like', 'np.zeros', 'np.empty', 'np.empty_like', 'np.ones_like', 'np.full_like')
+                                                               for x in subterms(vals[0]))
+            if blank:
+                problems.append('with %s the cluster waveforms are a freshly allocated array (%s), not the template waveforms' % (facts, show(vals[0])[:60]))
+            elif any(other[k_] and not got[k_] for k_ in range(4)):
+                problems.append('with %s the %s %s set as for the %s case' % (facts, ' / '.join(names[k_] for k_ in range(4) if other[k_] and not got[k_]),
+                                                                                 'is' if sum(1 for k_ in range(4) if other[k_] and not got[k_]) == 1 else 'are', 'uncurated' if want == 'curated' else 'curated'))
+            else:
+                unknown.append('with %s: %s not recognised (%s)' % (facts, ' / '.join(wrong), '; '.join(show(vals[k_])[:40] for k_ in range(4) if not got[k_])))
+    if problems:
+        for msg in sorted(set(problems))[:3]:
+            ctx.violated('C08.A4', F, msg[:120], msg)
+    elif unknown or n_ok == 0:
+        ctx.undecided('C08.A4', F, (sorted(set(unknown)) or ['no path sets the cluster tables'])[0])
+    else:
+        ctx.holds('C08.A4', F, 'on every path: assignments different and templates dense -> merge map, then cluster waveforms, n_clusters = max(spike_clusters) + 1; otherwise the cluster '
+                  'tables ARE the template tables, as many clusters as templates, nothing empty (%d paths)' % n_ok, 'curated / uncurated branch')
+
+
 def run(ctx):
     repo = ctx.repo
     cls = repo.cls(M, 'TemplateModel')
@@ -340,50 +456,7 @@ def run(ctx):
         else:
             ctx.undecided('C08.A2', cw, 'provenance of the stored mean waveform not recognised')
     # ---- A4
-    ld = meth('_load_data')
-    br = None
-    for i in ld.nodes(ast.If):
-        asg = {unparse(a.targets[0]) for a in list(i.body) + list(i.orelse) if isinstance(a, ast.Assign)}
-        if 'self.sparse_clusters' in asg:
-            br = i
-    if br is None:
-        ctx.violated('C08.A4', ld, '_load_data', '_load_data no longer distinguishes curated from uncurated assignments')
-    else:
-        sames = ['np.all(self.spike_clusters == self.spike_templates)', 'np.array_equal(self.spike_clusters, self.spike_templates)', '(self.spike_clusters == self.spike_templates).all()']
-        flipped = False
-        test0 = br.test
-        if isinstance(br.test, ast.UnaryOp) and isinstance(br.test.op, ast.Not) and isinstance(br.test.operand, ast.BoolOp):
-            # `if not (curated-condition): <uncurated> else: <curated>`
-            flipped = True
-            br = ast.If(test=br.test.operand, body=br.orelse, orelse=br.body)
-            ast.copy_location(br, test0)
-        good = any(Pat().m('not %s and self.sparse_templates.cols is None' % x, br.test) for x in sames) or \
-            any(Pat().m('np.any(self.spike_clusters != self.spike_templates) and self.sparse_templates.cols is None', br.test) for x in sames)
-        t = unparse(br.test).replace(' ', '')
-        has_same = any(any(Pat().m(x, n) for x in sames) or Pat().m('np.any(self.spike_clusters != self.spike_templates)', n) for n in ast.walk(br.test))
-        has_dense = any(Pat().m('self.sparse_templates.cols is None', n) for n in ast.walk(br.test))
-        if good:
-            ctx.holds('C08.A4', ld, 'merged cluster waveforms are computed iff the per-spike assignments differ and the templates are dense', br.test)
-        elif 'cluster_ids' in t or 'template_ids' in t or 'n_clusters' in t or 'n_templates' in t:
-            ctx.violated('C08.A4', ld, br.test, 'the curated branch is decided on `%s`, which compares the SETS of ids: moving spikes between existing clusters (no new id) is treated as '
-                         'uncurated and the cluster waveforms / merge map stay those of the templates' % unparse(br.test))
-        elif not has_same:
-            ctx.violated('C08.A4', ld, br.test, 'the curated branch is taken on `%s`, not on a per-spike comparison of cluster and template assignments' % unparse(br.test))
-        elif not has_dense:
-            ctx.violated('C08.A4', ld, br.test, 'the curated branch is taken for sparse templates too (`%s`)' % unparse(br.test))
-        else:
-            ctx.undecided('C08.A4', ld, 'curation test `%s` not recognised' % unparse(br.test), br.test)
-        b = {unparse(a.targets[0]).replace(' ', ''): unparse(a.value).replace(' ', '') for a in br.body if isinstance(a, ast.Assign)}
-        o = {unparse(a.targets[0]).replace(' ', ''): unparse(a.value).replace(' ', '') for a in br.orelse if isinstance(a, ast.Assign)}
-        okb = b.get('self.sparse_clusters') == 'self.cluster_waveforms()' and b.get('self.n_clusters') in ('self.spike_clusters.max()+1', 'np.max(self.spike_clusters)+1') and \
-            (b.get('self.merge_map,self.nan_idx') == 'self.get_merge_map()' or b.get('(self.merge_map,self.nan_idx)') == 'self.get_merge_map()')
-        oko = o.get('self.sparse_clusters') == 'self.sparse_templates' and o.get('self.n_clusters') in ('self.spike_templates.max()+1', 'np.max(self.spike_templates)+1', 'self.n_templates') and \
-            o.get('self.merge_map') == '{}' and o.get('self.nan_idx') in ('[]', 'np.array([],dtype=np.int64)', 'np.array([],dtype=int)')
-        ctx.check(okb, 'C08.A4', ld, 'curated branch', 'curated: merge map + cluster waveforms, n_clusters = max(spike_clusters) + 1', 'curated branch sets %s' % b)
-        ctx.check(oko, 'C08.A4', ld, 'uncurated branch', 'uncurated: cluster waveforms ARE the template waveforms, as many clusters as templates, nothing empty', 'uncurated branch sets %s' % o)
-        order = [unparse(a.targets[0]) for a in br.body if isinstance(a, ast.Assign)]
-        ctx.check('self.sparse_clusters' in order and any('merge_map' in x for x in order) and order.index('self.sparse_clusters') > [i for i, x in enumerate(order) if 'merge_map' in x][0],
-                  'C08.A4', ld, 'order', 'the merge map is available before the cluster waveforms are computed', 'cluster_waveforms runs before the merge map exists')
+    ctx.part('C08.A4', a4_branch, meth('_load_data'))
     if nrep == 0:
         ctx.holds('C08.A0', gm, 'no index-space / dimension conflict in get_merge_map, get_template_counts, get_cluster_mean_waveforms (2 modes), cluster_waveforms', 'curation methods')
 
